@@ -4,6 +4,7 @@ HERE = os.path.dirname(os.path.abspath(__file__))
 ROOT = os.path.dirname(HERE)
 
 TECH = "Lean 4 proof over hand-written executable model + exact correspondence check against the real code"
+TECH_GEN = TECH + "; for the contraction kernels additionally a translator tie: the einsum subscripts are read from the current source, translated to Lean and checked definitionally equal (rfl) to the model kernels on every run"
 TB = ("trusted: Lean kernel + imported Mathlib modules, axioms ⊆ {propext, Classical.choice, Quot.sound} (audited by #print axioms on every run); "
       "hand-written model, tied to /repo only as far as this run's correspondence exercises it; torch primitives on exact inputs; ")
 
@@ -55,19 +56,19 @@ CHECKS = {
  "C11": ("proof",
          "PARTIAL BY NATURE. Lean theorems (kind E): the Phi recursions of the AMEn matrix product are the exact left/right partial contractions of <X, A·B>, and the local right-hand side `_local_AB` tested against any core V equals the global trilinear form with X's k-th core replaced by V (localAB_galerkin), the full sweep equals Σ X(i,j)·Σ_k A(i,k)B(k,j) (abxSweep_eq_dense): the local problems are the exact Galerkin projections of the exact product. "
          "Tie: the module-level kernels of _amen.py are compared exactly with the models on integer data. The headline inequality ||y - A x|| <= C·eps·||A x|| (kind K: no convergence proof of DMRG/AMEn exists) is MONITORED, not proved: fast_matvec, dmrg_hadamard, amen_mv, amen_mm vs the exact product for orders 1..6, random and user guesses, complex for DMRG (C = 10; observed <= 0.7·eps).",
-         TB + "error bound only monitored (truncation, kick and stopping rule of the sweeps are not modelled); the inline einsum chains of _dmrg.py and the environments stored by the DMRG / AMEn product loops are tied by observing the running functions from outside (sys.settrace) and recomputing them with the Lean kernels dmrgPhiBck/Fwd, dmrgSuper (theorem dmrgSuper_galerkin), localAB and the folds in exact rationals; QR/SVD contracts", "§5 C11"),
+         TB + "error bound only monitored (truncation, kick and stopping rule of the sweeps are not modelled); the core update of _amen_mm_python after each local step (truncated SVD factors, rank enrichment by the residual block, QR, absorption into the next core) is modelled (TTModel/AmenStep.lean) and proved not to change the represented tensor beyond the SVD truncation (TT.C12d.updateEnrich_chain, update_full: rank enrichment is invisible for ANY enrichment block given Q·R = [u|uk]); the cores written back by the running loop are recomputed by that model on the factors of the run and the QR hypothesis is checked; translator tie: the subscripts of _compute_phi_fwd_AB/_bck_AB/_fwd_x/_bck_x/_local_AB are extracted from the current source, translated to Lean and checked definitionally equal to the model kernels (harness/einsum2lean.py); the inline einsum chains of _dmrg.py and the environments stored by the DMRG / AMEn product loops are tied by observing the running functions from outside (sys.settrace) and recomputing them with the Lean kernels dmrgPhiBck/Fwd, dmrgSuper (theorem dmrgSuper_galerkin), localAB and the folds in exact rationals; QR/SVD contracts", "§5 C11"),
  "C12": ("proof",
          "PARTIAL BY NATURE. Lean theorems (kind E): `_compute_phi_fwd_A/bck_A/…_rhs` are the exact partial contractions of <x, A y> and <b, x>; `_LinearOp.matvec` (tensordot sequence) equals `_local_product`; Galerkin exactness: <x[k:=v], A x[k:=u]> = <v, localProduct(Φ_l, A_k, Φ_r) u> and <b, x[k:=v]> = <v, localRhs> for every position, order, rank profile and core value — the local systems AMEn solves are the exact projections of the global system. "
          "Tie: every kernel of solvers.py (dense and banded local product, _LinearOp with and without preconditioners, phi recursions) compared exactly with the models on integer data; preconditioner blocks checked against the stated diagonal blocks. The residual inequality ||A x - b|| <= C·eps·||b|| (kind K) is MONITORED over SPD / diagonally dominant / Laplacian-like systems, all preconditioners, GMRES / BiCGSTAB / direct local solves, guesses, seeds (C = 10).",
-         TB + "residual bound only monitored (known finding for BiCGSTAB); GMRES/BiCGSTAB/torch.linalg.solve numerics outside the model (gmres / gmres_restart have direct contract cases); truncation/enrichment covered by M-trunc only; the loop itself is tied by observation: before every direct local solve of a running _amen_solve_python the assembled local matrix, the local right-hand side and the stored environments are recomputed by localProduct / localRhs / foldFwdA / foldBckA / foldFwdRhs / foldBckRhs in exact rationals (the environments of local_galerkin / rhs_galerkin are the ones the loop holds)", "§5 C12"),
+         TB + "residual bound only monitored (known finding for BiCGSTAB); C12c: the local residual B u - rhs tested against any core equals the global residual A y - b tested against the train with that core (local_residual_galerkin), so an exact solution satisfies every local system exactly (exact_solution_local_fixed_point: the sweep leaves an exact solution where it is) and a solved local system makes the global residual orthogonal to the local variations (local_solution_galerkin_orthogonal); C12d: the block after the local solve (truncated SVD, enrichment, QR, absorption) never changes the represented tensor beyond the SVD truncation (update_full), and the residual-driven rank rule returns a rank in [1, min(n, rmax)] whose truncation passed the test unless it is the full rank (rankByResidual_bounds/_accepts; Python loop-variable quirk: never below 2); tie: res_new / res_old reported by the running loop are recomputed as the true local residuals through Kern.localProduct, the rank used is recomputed by Amen.rankByResidual from the recorded tests, the cores written back are recomputed by Amen.update on the factors of the run (direct and iterative local solvers, all preconditioners); translator tie for the six solver kernels (einsum2lean.py); GMRES/BiCGSTAB/torch.linalg.solve numerics outside the model (gmres / gmres_restart have direct contract cases); truncation/enrichment covered by M-trunc only; the loop itself is tied by observation: before every direct local solve of a running _amen_solve_python the assembled local matrix, the local right-hand side and the stored environments are recomputed by localProduct / localRhs / foldFwdA / foldBckA / foldFwdRhs / foldBckRhs in exact rationals (the environments of local_galerkin / rhs_galerkin are the ones the loop holds)", "§5 C12"),
  "C13": ("proof",
          "PARTIAL BY NATURE. Lean theorems: scalar division is exact and inverts scalar multiplication; diag(y) acts as the Hadamard product (so the system solved is y*q = x entrywise); the 3-index kernels of _division.py equal the C12 kernels on the diagonal embedding of the divisor core, hence the C12 Galerkin theorems transfer. "
          "Tie: division kernels compared exactly with the models; ||q*y - x|| <= C·tol·||x|| (kind K) MONITORED for x/y, s/y, elementwise_divide with/without preconditioner and guess (C = 10).",
-         TB + "residual bound only monitored; loop state of the running amen_divide (local matrix, rhs, environments) recomputed by the C12 kernels and folds on diag(a)", "§5 C13"),
+         TB + "residual bound only monitored; loop state of the running amen_divide (incl. the block after the local solve: reported residuals, rank rule, truncation + enrichment, tied to TTModel/AmenStep.lean as in C12; translator tie for the six division kernels) (local matrix, rhs, environments) recomputed by the C12 kernels and folds on diag(a)", "§5 C13"),
  "C14": ("proof",
          "Index safety at proof level, quality PARTIAL BY NATURE. Lean theorems over the index-bookkeeping model: every update of the left/right index sets by a decoded pivot (np.unravel_index) keeps every multi-index inside its mode sizes; every row of every eval_index matrix has length d and column k in [0, N[k]); lifted by an invariant over the exact loop schedule of dmrg_cross (init pass, then LR/RL sweeps, any number of sweeps, any order d) to ALL function calls of every run, given only that _maxvol returns row numbers below the number of rows (dmrg_cross_calls_inRange). "
          "Tie: every index matrix handed to the user function and every index-set update observed on real runs is replayed through the Lean model and compared EXACTLY (≈200 events per run); the oracle checks dtype, shape M×d, column ranges, and for function_interpolate that every value handed to the function is an actual entry of the argument tensors. Approximation quality (kind K) is MONITORED (C = 50).",
-         TB + "_maxvol's pivot range is an assumption on torch's LU (checked per call by the range oracle); approximation quality only monitored (known finding for mostly-zero targets)", "§5 C14"),
+         TB + "_maxvol's row bookkeeping is modelled (TTModel/Maxvol.lean) and every returned position is proved to be a row number for every LU pivot vector and every history of loop decisions (TT.C14b.maxvol_inRange, given that torch's LU pivot vector holds row numbers and topk+unravel_index return a position inside the matrix: both checked on every recorded call); every _maxvol call of the run is replayed exactly through the model; approximation quality only monitored (known finding for mostly-zero targets)", "§5 C14"),
  "C16": ("proof",
          "Lean theorems over the model of manifold.py: `_delta2cores` represents exactly the sum of the d tangent terms L_0…L_{k-1} δ_k R_{k+1}…R_{d-1} (full_delta2cores) with interior ranks exactly twice those of x (ranks_twice / ranks_project_le); the projection is linear in z at the level of the represented tensor (project_add, project_smul, for z, w of arbitrary ranks); it fixes the base point given only left-orthonormality of the gauge (proj_fixed, gauge conditions as algebraic hypotheses). "
          "Tie: `_delta2cores` compared exactly on integer cores; for riemannian_projection the gauges computed by the implementation are captured and the model's projection (exact rationals) is compared with the real one (1e-9); the six identities of the property (linear, idempotent, self-adjoint, fixes x, residual orthogonal, rank <= 2r) and riemannian_gradient = P(Euclidean gradient) for three function families are checked numerically on every case.",
@@ -79,11 +80,11 @@ CHECKS = {
  "C15": ("proof",
          "Lean theorems: for every well-typed expression over {var, +, -, *, unary -, scalar *, scalar +, A@x} with a scalar head in {sum, dot, norm², entry, bilinear form, sums/products of those}, TT evaluation equals dense evaluation over ANY commutative ring; instantiated at dual numbers a+b·eps (carrier and operations are exactly the driver's) value AND derivative agree, i.e. every partial derivative w.r.t. every core entry of every operand equals the dense one (grad_eq_dense). "
          "Tie: random programs of depth 1..3 (also with kron, cat, pad, mprod, partial sums, slicing inside) are differentiated by torch autograd through the real torchtt (grad.grad / grad_list / watch variants) and compared EXACTLY, entry by entry, with the model's dual-number evaluation and with an independent dense autograd graph.",
-         TB + "programs in which an operand is scaled by a scalar EXPRESSION of tracked cores are covered by evalProg_eq_dense / gradProg_eq_dense; torch.autograd trusted; 'algebraic derivative = analytic derivative' for polynomial maps; expression-level theorem covers the shape-preserving fragment, shape-changing operations rely on their own value theorems (C03/C07/C08/C09) plus the exact correspondence", "§5 C15"),
+         TB + "programs in which an operand is scaled by, added to or subtracted from a scalar EXPRESSION of tracked cores (x*s, x+s, x-s, s-x with s = dot(x,y), …) are covered by evalProgK_eq_dense / gradProgK_eq_dense (C15d) and generated in all four forms; C15c: grad.grad returns one slot per core (or per listed, possibly negative/repeated index), slot k belongs to core k and is None exactly for unwatched cores, for every history of watch/unwatch (model TTModel/GradApi.lean, tied on histories with partial watching); torch.autograd trusted; 'algebraic derivative = analytic derivative' for polynomial maps; expression-level theorem covers the shape-preserving fragment, shape-changing operations rely on their own value theorems (C03/C07/C08/C09) plus the exact correspondence", "§5 C15"),
  "C18": ("proof",
          "Lean theorems over the guard model: for +,-,* and @ between TT objects, whenever the operands have no dense counterpart (kind mismatch, non-broadcastable / unequal shapes) the guard returns an exception class and never `ok` (reject_complete), the documented class is the one returned (IncompatibleTypes / ShapeMismatch / InvalidArguments), @ accepts exactly the compatible pairs; the constructor's rejection logic is the M-shape theorem. "
          "Tie: malformed stream (~1100 cases: every entry point x incompatibility class x position) executed on the real code with the property as oracle (must raise; documented class where the docstring names one), guard/constructor outcomes compared with the model outcome-class by outcome-class; a control stream checks that compatible calls are not rejected.",
-         TB + "entry points whose guards are not modelled in Lean (solvers, interpolate, reshape/permute argument checks, indexing, set_core) are decided by the oracle on the malformed stream only", "§5 C18"),
+         TB + "mprod list form: accepted iff TT tensor, equal list lengths and every pair compatible at the time it is reached (mprodList_guard; a surplus matrix or mode is rejected after the repair ce6a0be); entry points whose guards are not modelled in Lean (solvers, interpolate, reshape/permute argument checks, indexing, set_core) are decided by the oracle on the malformed stream only", "§5 C18"),
  "C19": ("proof",
          "Lean theorems: rebuilding an object from its cores alone (what load, clone, detach, to, cpu do) reproduces exactly the same kind, N, M, R and shape for every well-formed object (meta_fromCores), including after set_core / reduce_dims and for every reachable object (meta_reachable); metadata is unique given the cores. "
          "Tie: save->load / clone / detach / to / cpu / numpy on TT tensors and matrices of order 1..6 incl. TT-SVD outputs (numpy ints in R) and non-contiguous views: cores bit-identical, metadata identical and equal to the Lean constructor model on the core shapes, clone shares no storage.",
@@ -91,7 +92,7 @@ CHECKS = {
  "C20": ("proof",
          "Lean theorem forward_eq: for every order, mode/rank profile, core value and batch index, the successive-tensordot forward pass equals Σ_j W(i,j)·x(b,j) + bias(i) with W = full(cores). "
          "Tie: exact correspondence on integer layers for 0..3 batch dims, both initialisers and dtypes; parameters registration and exact gradients are compared with an independent dense autograd graph on every case.",
-         TB + "autograd itself and parameter registration are oracle-checked, not theorems", "§5 C20"),
+         TB + "autograd itself and parameter registration are oracle-checked, not theorems; forward is also run inside histories on ONE layer object (train/eval mode, grad/no_grad, in-place updates, load_state_dict, SGD steps in between) and compared with the model on the parameter values of that moment (no hidden state)", "§5 C20"),
 }
 
 NOT_YET = {
@@ -130,7 +131,7 @@ def main():
             "engine": "lean-model+correspondence",
             "level_claimed": {"category": cat, "text": text, "design_ref": "DESIGN.md " + ref},
             "level_note": note,
-            "technique": TECH,
+            "technique": TECH_GEN if pid in ("C11", "C12", "C13") else TECH,
         })
     man = {
         "version": 1,
